@@ -19,6 +19,8 @@ ASSUME = [
     "are being followed -, REQUESTED, RECEIVED, IGNORE), which are interleaved for either service as well",
     "Tor may report the outcome of an upload to one directory a second time (UploadedAgain / FailedAgain): what was counted once is not "
     "counted twice",
+    "the control connection may be lost at any point (Lose): a pending wait - also an await-all wait with some uploads confirmed and "
+    "others outstanding - and an unanswered creation fail",
     "in two of five executions the caller passes a progress callback (its calls are recorded; the outcome must not depend on it)",
     "authenticated ephemeral services (which match uploads by a permanent id derived from an RSA key) are not replayed",
     "every fourth creation is started right after an earlier service's creation completed on the same connection, while the SETEVENTS "
@@ -74,6 +76,9 @@ def rand_script(rng):
             else:
                 up[(s, d)] = "failed"
                 script.append(dict(a="Failed", s=s, d=d))
+        if rng.random() < 0.04:
+            script.append(dict(a="Lose"))       # the control connection goes away: nothing more arrives
+            break
     return script
 
 
@@ -99,7 +104,10 @@ def run(pid, tier, seed):
                           [dict(a="Upload", s="me", d="d1"), dict(a="Upload", s="me", d="d2"), dict(a="Failed", s="me", d="d1"),
                            dict(a="Failed", s="me", d="d2"), dict(a="Reply")],
                           [dict(a="Upload", s="me", d="d1"), dict(a="Upload", s="other", d="d2"), dict(a="Failed", s="me", d="d1"),
-                           dict(a="Reply"), dict(a="Uploaded", s="other", d="d2")]):
+                           dict(a="Reply"), dict(a="Uploaded", s="other", d="d2")],
+                          [dict(a="Reply"), dict(a="Upload", s="me", d="d1"), dict(a="Upload", s="me", d="d2"), dict(a="Uploaded", s="me", d="d1"),
+                           dict(a="Lose")],
+                          [dict(a="Upload", s="me", d="d1"), dict(a="Lose")]):
                     traces.append(ou.replay(s, mode, kind, prelude=pre, he=he, progress=(len(traces) % 2 == 1)))
     for i, (s, mode, he) in enumerate(jobs):
         # every fourth creation starts right after another one on the same connection, whose giving up of HS_DESC is unanswered
